@@ -268,6 +268,10 @@ func cmdCheck(args []string) int {
 			rep.funcs = append(rep.funcs, fe)
 			continue
 		}
+		for _, d := range res.dropped {
+			fe.Status = "loop invariant dropped (does not attach to the current loop): " + d
+			fmt.Printf("NOTE property=%s %s: loop invariant dropped, it does not attach to the current loop: %s\n", id, res.key, d)
+		}
 		for _, o := range res.obligs {
 			mine := hasProp(o.Props, id)
 			if !mine {
